@@ -35,7 +35,7 @@ type lay struct {
 func (sn *snap) layouts() []lay {
 	var ls []lay
 	for m, mi := range sn.msgs {
-		ls = append(ls, lay{fmt.Sprintf("M%d", m), mi.bytes * 8, mi.lay})
+		ls = append(ls, lay{fmt.Sprintf("M%d", m), vinv.PayloadBits(mi.bytes), mi.lay})
 	}
 	us := make([]int, 0, len(sn.mux))
 	for u := range sn.mux {
@@ -204,7 +204,7 @@ func (c *stepCtx) containers(sn *snap, x int) []lay {
 	}
 	for m, mi := range sn.msgs {
 		if idxOf(mi.lay, x) >= 0 {
-			ls = append(ls, lay{fmt.Sprintf("M%d", m), mi.bytes * 8, mi.lay})
+			ls = append(ls, lay{fmt.Sprintf("M%d", m), vinv.PayloadBits(mi.bytes), mi.lay})
 		}
 	}
 	return ls
@@ -240,9 +240,9 @@ func (c *stepCtx) expectAccept() (bool, bool) {
 		}
 		n := sn.sigs[o.b].size
 		if o.k == "append" {
-			return n <= mi.bytes*8-sn.lastEnd(mi.lay), true
+			return n <= vinv.PayloadBits(mi.bytes)-sn.lastEnd(mi.lay), true
 		}
-		return o.z >= 0 && o.z <= mi.bytes*8-n && sn.rangeFree(mi.lay, -1, o.z, n), true
+		return o.z >= 0 && o.z <= vinv.PayloadBits(mi.bytes)-n && sn.rangeFree(mi.lay, -1, o.z, n), true
 	case "resize":
 		if o.a >= nM {
 			return false, false
@@ -398,7 +398,7 @@ func (c *stepCtx) checkShift() []failure {
 		if o.a >= len(pre.msgs) {
 			return nil
 		}
-		hs, size = pre.msgs[o.a].lay, pre.msgs[o.a].bytes*8
+		hs, size = pre.msgs[o.a].lay, vinv.PayloadBits(pre.msgs[o.a].bytes)
 	case "muxshl", "muxshr":
 		if pre.mux[o.a] == nil {
 			return nil
@@ -747,8 +747,8 @@ func (w *world) checkLayoutSize() []failure {
 	var fs []failure
 	for i, m := range w.msgs {
 		p := w.probe("probe_payload_end")
-		if err := m.InsertSignal(p, m.SizeByte()*8); err == nil {
-			fs = append(fs, failure{"layout-size", fmt.Sprintf("M%d reports %d byte(s) but accepts a signal at bit %d: its layout is larger than its payload", i, m.SizeByte(), m.SizeByte()*8)})
+		if err := m.InsertSignal(p, vinv.PayloadBits(m.SizeByte())); err == nil {
+			fs = append(fs, failure{"layout-size", fmt.Sprintf("M%d reports %d byte(s) but accepts a signal at bit %d: its layout is larger than its payload", i, m.SizeByte(), vinv.PayloadBits(m.SizeByte()))})
 			_ = m.RemoveSignal(p.EntityID())
 		}
 	}
